@@ -37,6 +37,10 @@ def composites():
         ("either", [("opt", a, True), b]), ("concat", [("either", [a, b]), c]),
         ("either", [O("AnyFrom('c', '\\\\')"), O("AnyFrom('0', '5')")]), ("either", [O("AnyFrom('0', '5')"), O("AnyFrom('\\\\', 'c')")]),
         ("concat", [O("AnyFrom('\\\\', ')')"), O("AnyFrom('(', 'x')")]),
+        # alternations whose outer branches begin / end with an anchor or a lookaround (the text then looks like an assertion)
+        ("either", [("mas", a), ("mae", b)]), ("either", [("mals", a), c, ("male", b)]), ("either", [("mas", a), b]),
+        ("either", [a, ("mae", b)]), ("either", [("pb", a, [b]), ("fb", c, [b])]), ("either", [("fb", a, [b]), c]),
+        ("either", [O("WordBoundary()"), a]), ("either", [("npb", a, [b]), ("nfb", c, [b])]),
     ]
 
 
